@@ -70,6 +70,22 @@ Added probe families (helpers in harness/s5_c13.py):
  * comment stripper on carriage returns (v1.STRIP_EDGE, v1.STRIP_SOUP; F73): the generated definition texts contain no CR, so the
    `stripcomments` correspondence also runs on hand-written texts and a random soup over `/ * " ' CR LF CRLF` and ready-made comments
    with every kind of line end: `// c` + CR LF and `// c` + CR at the end of the text are comments, `// c` + CR + anything else is not.
+ * unknown / cyclic aliases in every position (round 8, helpers in harness/v9_c13.py + v9_c13gen.py): a name that does not resolve - unknown,
+   defined further down in the text / by a later load(), a dangling alias chain (cs.add_type, cs.typedefs, the legacy parser's typedef), an alias
+   cycle built with add_type (1..4 names, with a lead-in chain), a chain of more than 10 lookups - put where a type name can stand: field type
+   (plain, pointer, arrays, bit-field, `struct NAME f;`, inline nested struct / union, in struct / union / typedef struct with name lists),
+   typedef target, enum / flag base type (named, anonymous), sizeof(NAME) inside #define values, enum / flag member values and array
+   dimensions (16 expression shapes around the sizeof), Expression(cs, ...).evaluate([context]), cs.resolve, cs.NAME, cs.read, cs.add_type;
+   loaded through cs.load (positional / keyword deftype), cs.loadfile on a real file, TokenParser(cs, ...).parse, the legacy parser; as one
+   text, with the prelude apart, one load() per definition; compiled / interpreted, aligned / packed, endianness spellings < > ! @ =, pointer
+   widths; compact and with the three layout mutant families.  Oracle: ResolveError at load time where the unmodified library resolves at load
+   time (and afterwards no constant holds text such as 'sizeof(NAME)', nothing of the refused definition is registered), ResolveError on the
+   first read for array dimensions - through T(bytes / bytearray / memoryview / BytesIO), T.read(bytes / stream / real file), cs.read, alone
+   and inside an outer struct / union / array typedef -, never a value, never a hang (5 s alarm); after the missing name is defined (later
+   definition loaded, dangling target added, cycle broken with replace=True) the same text is accepted and binds to that very type.  Every
+   scenario is repeated with a name that does resolve (built-in, synonym, prelude typedef / struct / enum, API alias chains of up to exactly 10
+   lookups): accepted, the member / alias / base type IS the resolved type object, constants / enum members / array lengths equal the harness's
+   own arithmetic on its own size table.  The alias tables built through the API also go to the Lean model (`resolvein`).
 """
 from __future__ import annotations
 
@@ -79,6 +95,7 @@ from .. import common, impl
 from .. import s5_c13 as s5
 from .. import v1_c13 as v1
 from .. import v8_c13 as v8
+from .. import v9_c13 as v9
 from ..common import A, Case, Result, mkrng, parse_sexp, run_driver, sx
 from ..structprops import rand_bytes
 
@@ -559,7 +576,16 @@ def run(env) -> Result:
                 "named like #define constants / members of anonymous enums, with derived constants and consumer structures, loaded "
                 "colliders-first / colliders-last / in random dependency-respecting orders x one text / one load() per definition / split / "
                 "layout mutants x endianness x compiled x align: same observation as the reference text, same as without the colliders, "
-                "member tables = C numbering with the enum's own members in scope")
+                "member tables = C numbering with the enum's own members in scope; "
+                "unknown / cyclic aliases in every position: names that do not resolve (unknown, defined later, dangling alias chains, add_type "
+                "cycles, chains of more than 10 lookups) x positions (field type forms, typedef target, enum/flag base, sizeof in #define / enum "
+                "value / array dimension / Expression, cs.resolve / cs.NAME / cs.read / cs.add_type) x entry points (load, load with deftype, "
+                "loadfile, TokenParser.parse, legacy parser; one text / prelude apart / per definition) x options (compiled, align, endianness "
+                "spelling, pointer width) x layout mutants: ResolveError at load where the library resolves at load (no text constant, nothing "
+                "registered), ResolveError on every first read (bytes / bytearray / memoryview / streams / real file / cs.read; alone and inside "
+                "other types) for array dimensions, never a value or a hang; after the name is defined the same text binds to that type; each "
+                "scenario also with a resolving name (control: identity of the bound type, values by the harness's own size arithmetic); alias "
+                "tables also to the model's resolve")
     dc = impl.dc()
     rnd = mkrng(env["seed"], "c13")
     tier = env["tier"]
@@ -718,6 +744,12 @@ def run(env) -> Result:
     option_history_probes(res, viol, dc, mkrng(env["seed"], "c13-options"), 40 if tier == "quick" else 600)
     # name collisions across unrelated definitions: enum / flag members named like #define constants / anonymous-enum members (v8_c13)
     v8.collision_probes(res, viol, dc, mkrng(env["seed"], "c13-collision"), 36 if tier == "quick" else 300, tier, probe_parser)
+    # unknown / cyclic aliases in every position where a type name can stand, through every load / read entry point (v9_c13); the alias
+    # tables it builds also go to the model's `resolve`
+    def probe_resolve(c, name, want):
+        lines.append(sx([A("resolvein"), [[k, v if isinstance(v, str) else A("type")] for k, v in c.typedefs.items()], name]))
+        metas.append(("resolvein", name, want))
+    v9.unresolved_probes(res, viol, dc, mkrng(env["seed"], "c13-unresolved"), 260 if tier == "quick" else 3000, tier, probe_resolve)
     # ---- alias laws
     cs = dc.cstruct()
     for name, target in cs.typedefs.items():
@@ -802,7 +834,7 @@ def run(env) -> Result:
 
 
 def replay(body) -> int:
-    """re-evaluate a recorded case of the layout / redeclare / options / collision families on the current tree: 1 = it still fails"""
+    """re-evaluate a recorded case of the layout / redeclare / options / collision / unresolved families on the current tree: 1 = it still fails"""
     print("replay:", body.get("what"))
     case = body.get("case") or {}
     dc = impl.dc()
@@ -842,6 +874,12 @@ def replay(body) -> int:
             return 1
     elif fam == "collision":
         problems = v8.eval_case(dc, __import__("sys").modules[__name__], case)
+        for p in problems:
+            print("still fails:", p)
+        if problems:
+            return 1
+    elif fam == "unresolved":
+        problems = v9.run_steps(dc, case)
         for p in problems:
             print("still fails:", p)
         if problems:
